@@ -584,6 +584,32 @@ fn main() {
                 rep.samples.push(format!("{{\"input\":{},\"cfg\":{},\"expansion_prefix\":{}}}", jesc(&cases_a[i][2]), jesc(&cases_a[i][1]), jesc(&reference[i].as_ref().unwrap().chars().take(200).collect::<String>())));
             }
         }
+        // id \t cfg \t text  ->  lines "id \t fnv64 of the rendered expansion" (one expansion per case, in reverse order
+        // when a 4th argument `rev` is given). Compared across processes started in different environments.
+        "digest" => {
+            let mut cases = read_cases(&inp);
+            if args.get(4).map(|s| s.as_str()) == Some("rev") {
+                cases.reverse();
+            }
+            let mut lines = Vec::new();
+            for c in &cases {
+                let s = match expand(&c[2], &c[1]) {
+                    Class::Ok(s) => format!("ok:{}", s),
+                    Class::Reject(m) => format!("reject:{}", m),
+                    Class::ConfigReject(m) => format!("cfgreject:{}", m),
+                    Class::Panic(m) => format!("panic:{}", m),
+                    Class::BadOutput(m) => format!("bad:{}", m),
+                };
+                let mut h: u64 = 0xcbf29ce484222325;
+                for b in s.as_bytes() {
+                    h ^= *b as u64;
+                    h = h.wrapping_mul(0x100000001b3);
+                }
+                lines.push(format!("{}\t{:016x}\t{}", c[0], h, s.len()));
+            }
+            std::fs::write(&out, lines.join("\n")).unwrap();
+            return;
+        }
         // id \t cfg \t text \t marker,marker,...
         "marker" => {
             fn count(ts: TokenStream, m: &mut HashMap<String, usize>) {
